@@ -342,6 +342,7 @@ fn escape_one_char(c: char) -> String {
     '$' => "$$".to_owned(),
     '*' => "\\x2a".to_owned(),
     '?' => "\\x3f".to_owned(),
+    ';' => "\\x3b".to_owned(),
     _ => {
       if c.is_control() {
         let i = c as u64;
